@@ -915,6 +915,18 @@ def gen_cases(quick):
         for _ in range(3):
             k = r.randint(0, 4)
             cases.append({'fam': 'tourn', 'fits': fits, 'k': k, 'picks': [r.randrange(len(fits)) for _ in range(2 * k)]})
+    # SCALE (own random stream, so that the cases above and below keep theirs): tournaments over populations of hundreds of individuals,
+    # deep copies of chains deeper than 32 levels with right children, deep copies of trees whose terminals are float32
+    r2 = hlib.rng('c0809scale')
+    for L in ((160, 300) if quick else (160, 300, 1000)):
+        fits = [r2.randint(-40, 40) for _ in range(L)]
+        for k in (3, 6):
+            cases.append({'fam': 'tourn', 'fits': fits, 'k': k, 'picks': [r2.randrange(L) for _ in range(2 * k)]})
+    for d in ((40, 70) if quick else (40, 70, 150)):
+        chain = ['T', 0]
+        for k in range(d):
+            chain = ['B', 0, ['T', k % nt], chain] if k % 3 else ['B', 0, chain, ['T', (k + 1) % nt]]
+        cases.append({'fam': 'deepcopy', 'nt': nt, 'shape': chain})
     # histories: the function set of a LIVE space is re-assigned / rewritten in place, then trees are grown
     hist = [([1, 5], [5, 1]), ([1, 5], [4, 0]), ([1], [5, 2, 7]), ([1, 5, 2], [6]), ([], [0, 4]), ([0, 1, 2], [7, 8, 9]),
             ([4, 5], [1, 4, 0, 9]), ([3, 6], [])]
